@@ -206,7 +206,8 @@ func VerifyFunc(p *Program, ss *Sorts, reg *SpecReg, fc *FuncContract) (res *Fun
 				fv.assert(s2, "frame", tEq(s2.ghost[g], fv.entryGhost[g]), fd.Pos(), "ghost "+g+" is not modified")
 			}
 		}
-		for name, obj := range fv.specParam {
+		for _, name := range sortedKeys(fv.specParam) {
+			obj := fv.specParam[name]
 			if fv.modset[name] {
 				continue
 			}
